@@ -243,13 +243,19 @@ func (p *Parser) Enter(in ast.Node) (ast.Node, bool) {
 			cols[i] = idx.IndexPartSpecifications[i].Column.Name.O
 		}
 
+		indexType := model.IndexTypeInvalid
+		if idx.IndexOption != nil {
+			indexType = idx.IndexOption.Tp
+		}
+
 		p.Migration.AddIndex(idx.Table.Name.O, element.Index{
 			Node: element.Node{
 				Name:   idx.IndexName,
 				Action: element.MigrateAddAction,
 			},
-			Typ:     idx.KeyType,
-			Columns: cols,
+			Typ:       idx.KeyType,
+			IndexType: indexType,
+			Columns:   cols,
 		})
 	}
 
